@@ -355,8 +355,11 @@ def simulate(rng, tmp, p):
                     continue
                 paired = rng.random() < p.get("paired", 0.0) and (b - a) >= 120
                 if paired:
-                    l1 = rng.randint(30, (b - a) // 2 - 10)
-                    l2 = rng.randint(30, (b - a) // 2 - 10)
+                    lo, hi = p.get("mate_len", (30, (b - a) // 2 - 10))
+                    hi = min(hi, (b - a) // 2 - 10)
+                    lo = min(lo, hi)
+                    l1 = rng.randint(lo, hi)
+                    l2 = rng.randint(lo, hi)
                     parts = [(a, a + l1), (b - l2, b)]
                 else:
                     parts = [(a, b)]
